@@ -47,6 +47,12 @@ def _scope_nodes(fn: ast.AST):
             stack.extend(a.defaults)
             stack.extend([d for d in a.kw_defaults if d is not None])
             continue
+        if isinstance(n, ast.ClassDef):
+            # a class body is its own namespace: the names of its methods / attributes are part of its behaviour
+            # (visitor dispatch, dataclass fields ...) and are never treated as renamable locals
+            stack.extend(n.decorator_list)
+            stack.extend(n.bases)
+            continue
         stack.extend(ast.iter_child_nodes(n))
 
 
